@@ -24,6 +24,8 @@ Proved for every annotation of the grammar (structural induction, no depth bound
   * `effective_nodup`, `fields_partition`   every dataclass field is listed once with one verdict
   * `verdict_inherited`, `verdict_overridden`   inherited fields keep their verdict, overriding fields get the
     verdict of the new annotation
+  * `classOutcome_flatten`   a class is determined by the sequence of field declarations replayed along its
+    reversed MRO (multiple inheritance: the harness sends that replay as one level)
 "plain vs. postponed annotations" has no counterpart in the model (both are the same `Ty` once
 `get_type_hints` has evaluated them): that clause is carried by the correspondence (every generated chain is
 rendered in both modes) and by the spelling-invariance oracle of the harness.
@@ -738,6 +740,19 @@ theorem chainOutcome_get (lvls : List Level) (i : Nat) (r : Option (List (Str ×
     (h : (chainOutcome lvls)[i]? = some r) : r = classOutcome (lvls.take (i + 1)) := by
   simpa using chainFrom_get [] lvls i r h
 
+/-! ### multiple inheritance: a class is the replay of the declarations along its reversed MRO -/
+
+theorem effective_flatten (ls : List Level) : effective [ls.flatten] = effective ls := by
+  simp [effective, List.foldl_flatten]
+
+/-- `dataclasses` fills the field dict of a class by writing, for every class of the reversed MRO, its
+resolved fields, then the own declarations; an override keeps its slot (`addField`).  Only the sequence
+of writes matters, not how it is cut into classes: the harness sends a class with several bases as ONE
+level holding the whole replay -/
+theorem classOutcome_flatten (ls : List Level) : classOutcome [ls.flatten] = classOutcome ls := by
+  unfold classOutcome defCheck processNodeFields
+  simp only [effective_flatten, List.any_cons, List.any_nil, Bool.or_false, List.any_flatten]
+
 /-! ### non-vacuity: concrete annotations and classes -/
 
 -- `tuple[NT, ...]`, `NT | None`, `Optional[NT]` with `NT = NewType("NT", Leaf)` are child fields (F11)
@@ -769,6 +784,9 @@ example : defCheck [[⟨['x'], .coll .list [.node 0]⟩]] = .raised := by decide
 example : classOutcome [[⟨['x'], .coll .list [.fwd 0]⟩, ⟨['y'], .atom .int⟩], [⟨['x'], .fwd 0⟩]] =
     some [(['x'], .child), (['y'], .prop)] := by decide
 example : fieldVerdict [[⟨['x'], .atom .int⟩], [⟨['y'], .node 0⟩]] ['x'] = some .prop := by decide
+-- `class D(B1, B2): pass` with `B1.x: int`, `B2.y: Leaf`, `B2.x: str`: replay B2, B1 (reversed MRO)
+example : classOutcome [[⟨['y'], .node 0⟩, ⟨['x'], .atom .str⟩, ⟨['x'], .atom .int⟩]] =
+    some [(['y'], .child), (['x'], .prop)] := by decide
 example : chainOutcome [[⟨['x'], .atom .int⟩], [⟨['x'], .coll .set []⟩], [⟨['z'], .none⟩]] =
     [some [(['x'], .prop)], Option.none] := by decide
 
